@@ -13,6 +13,18 @@ CHECKS = {
  "C13": dict(technique="TLC invariants on Gemini.tla (permutation invariance of canonical term bags, zero/independence, MI=log K, bounds) + replay of every case into the code",
              text="The invariances are theorems of the specification checked by TLC in exact arithmetic on every enumerated case (open and closed simplex); the code is run on the same cases, their permutations and empty-cluster extensions.",
              note="small grids; closed-simplex tolerances account for epsilon clipping", ref="DESIGN §4 C13"),
+ "C08": dict(technique="TLA+ spec (KauriCore/Kauri.tla) enumerated by TLC: exact candidate tables for every reachable tree state replayed into find_best_split (compiled + interpreted .pyx); real fits trace-validated against KauriTrace",
+             text="TLC enumerates datasets x kernels x (max_clusters, min_samples_leaf) x every intermediate state reachable by any admissible split and computes the gain of every candidate as the objective difference in exact integers; the real find_best_split must return an admissible candidate with that exact gain which is a maximiser. Real Kauri.fit runs are validated step by step (gain, best, score = root + sum of gains).",
+             note="integer data/kernels, n<=6; the double-star gain defect in _utils.pyx is a known finding (cannot re-cythonise here); compiled .so and .pyx source are both exercised", ref="DESIGN §4 C08"),
+ "C09": dict(technique="TLC model-checks the Kauri.fit state machine (KauriFit.tla invariants) and validates recorded real fits against KauriTrace.tla",
+             text="The structural limits, routing = partition, tree shape and termination are invariants of the KauriFit specification, model-checked for all datasets on a grid x hyperparameters; every real fit over a parameter grid is recorded at find_best_split and validated as a behaviour of the specification with the invariants evaluated on every state, the final tree_/labels_/predict/score compared with the specification's.",
+             note="integer datasets n<=7, d<=3; recorder wraps a module attribute (no source hook)", ref="DESIGN §4 C09"),
+ "C14": dict(technique="TLA+ spec (Mlcl.tla: Accept by transitive closure, Inject in exact rationals) enumerated by TLC, every case replayed into add_mlcl_constraint and the decorated _batchify/_compute_grads",
+             text="All 4096 (ML,CL) subset pairs over non-contiguous id sets, self pairs, malformed shapes, and the gradient injection for every ordered batch are enumerated by TLC with spec-internal theorems (Accept iff satisfiable; injection = gradient of the pairwise penalty); the real functions are driven with a scripted permutation and compared exactly.",
+             note="<=5 ids, K<=3; real fits checked by a Python-side side check", ref="DESIGN §4 C14"),
+ "C15": dict(technique="TLA+ spec (Douglas.tla: cells, leaf index, Active set on an integer-scaled grid) enumerated by TLC, replayed into a real Douglas model with installed cut points",
+             text="Masks x n_cuts x cut vectors in every order x small datasets are enumerated by TLC with theorems (argmax of the bin logits = count of cuts below, order irrelevance, mask inertness); the real model must reproduce cells, leaf count, probability vectors at three temperatures, bit-identical predictions under masked-feature perturbation and the Active set.",
+             note="d<=3, n_cuts<=3, half-integer cuts; T->0 checked at T=1e-3", ref="DESIGN §4 C15"),
 }
 def main():
     checks = []
